@@ -83,8 +83,10 @@ def extract(repo):
     arm_body = arm[arm.index('=>') + 2:]
     arm_body = re.sub(r'StreamErrorIncoming::\w+.*$', '', arm_body, flags=re.S).strip().rstrip(',').strip()
     norm = re.sub(r'\s+', '', arm_body)
+    if norm.startswith('{') and norm.endswith('}'):
+        norm = norm[1:-1]                 # a block around the single expression is the same arm
     f['hq_term_pure'] = bool(re.fullmatch(r'StreamError::RemoteTerminate\{code:Code::from\(%s\),?\}' % binder, norm))
-    f['hq_term_branches'] = bool(re.search(r'\b(if|match|while|for|loop)\b|self\.|;', arm_body))
+    f['hq_term_branches'] = bool(re.search(r'\b(if|match|while|for|loop|let)\b|self\.|;', arm_body))
     una = arms['Unknown']
     una_body = re.sub(r'\s+', '', una[una.index('=>') + 2:]).rstrip('}').rstrip(',')
     f['hq_unknown_pure'] = bool(re.fullmatch(r'\{?StreamError::Undefined\(\w+\)\}?,?\}?', una_body)) and not STORE_RE.search(una)
@@ -260,9 +262,9 @@ def extract(repo):
     m = re.search(r'StreamError::HeaderTooBig[^}]*\}[^{]*\{[^}]*stop_sending\(\s*Code::(\w+)\s*\)', cb, re.S)
     f['cli_trl_toobig_stop'] = m.group(1) if m else None
     b, spans['send_trailers'] = src.fn_body('send_trailers', after=src.text.index('pub struct RequestStream'))
-    f['send_trailers_err_via_hq'] = bool(re.search(r'stream::write\([^;]*\)\s*\.await\s*\.map_err\(\|e\|\s*self\.handle_quic_stream_error\(e\)\)', b, re.S))
+    f['send_trailers_err_via_hq'] = bool(re.search(r'stream::write\([^;]*\)\s*\.await\s*\.map_err\(\|(\w+)\|\s*self\.handle_quic_stream_error\(\1\)\)', b, re.S))
     f['send_trailers_limit_cmp'] = bool(re.search(r'if\s+mem_size\s*>\s*max_mem_size', b))
-    HQ = r'\.map_err\(\|e\|\s*self\.handle_quic_stream_error\(e\)\)'
+    HQ = r'\.map_err\(\|(\w+)\|\s*self\.handle_quic_stream_error\(\1\)\)'   # any binder name
     for fn, want in (('send_data', 1), ('finish', 2)):
         b, spans[fn] = src.fn_body(fn, after=src.text.index('pub struct RequestStream'))
         # EVERY error mapping of the function has exactly the pass-through form, and nothing in it touches shared state
@@ -277,6 +279,38 @@ def extract(repo):
     b2 = src.fn_body('send_trailers', after=src.text.index('pub struct RequestStream'))[0]
     # send_trailers: one encode failure site (a local encoder error: not peer-reachable) + one write
     f['send_trailers_maps'] = len(re.findall(r'\.map_err\(', b2)) == 2 and len(re.findall(HQ, b2)) == 1
+    # every place in the request-path files that can store to the shared cell / set closing: a new site anywhere in them
+    # (also in regions no arm-level fact reads) changes this list
+    SITE = re.compile(r'\b(handle_connection_error_on_stream|set_conn_error_and_wake|set_conn_error|set_closing|handle_connection_error)\s*\(')
+    counts = []
+    for rel in ('server/request.rs', 'client/stream.rs', 'server/stream.rs', 'error/connection_error_creators.rs'):
+        counts.append(len(SITE.findall(Source(repo + '/h3/src/' + rel).text)))
+    csrc2 = Source(repo + '/h3/src/connection.rs')
+    counts.append(len(SITE.findall(csrc2.text[csrc2.text.index('pub struct RequestStream'):])))
+    ccon = Source(repo + '/h3/src/client/connection.rs')
+    counts.append(len(SITE.findall(ccon.fn_body('send_request')[0])))
+    f['site_counts'] = counts
+    # whole bodies, comment-free and whitespace-free, only the fact sites (code / status names) masked: any other edit shows
+    import hashlib
+    def norm_body(text):
+        t = re.sub(r'\s+', '', text)
+        t = re.sub(r'Code::\w+', 'Code::_', t)
+        t = re.sub(r'StatusCode::\w+', 'StatusCode::_', t)
+        return int(hashlib.sha256(t.encode()).hexdigest()[:12], 16)
+    rq = Source(repo + '/h3/src/server/request.rs')
+    cs_ = Source(repo + '/h3/src/client/stream.rs')
+    ss_ = Source(repo + '/h3/src/server/stream.rs')
+    cc_ = Source(repo + '/h3/src/error/connection_error_creators.rs')
+    after = csrc2.text.index('pub struct RequestStream')
+    f['body_hashes'] = [
+        norm_body(rq.fn_body('accept_with_frame')[0]), norm_body(rq.fn_body('resolve')[0]),
+        norm_body(cs_.fn_body('recv_response')[0]), norm_body(cs_.fn_body('poll_recv_trailers')[0]),
+        norm_body(csrc2.fn_body('poll_recv_trailers', after=after)[0]), norm_body(csrc2.fn_body('poll_recv_data', after=after)[0]),
+        norm_body(csrc2.fn_body('finish', after=after)[0]), norm_body(csrc2.fn_body('send_data', after=after)[0]),
+        norm_body(csrc2.fn_body('send_trailers', after=after)[0]),
+        norm_body(cc_.fn_body('handle_quic_stream_error')[0]), norm_body(cc_.fn_body('handle_connection_error_on_stream')[0]),
+        norm_body(ss_.fn_body('send_response')[0]), norm_body(ccon.fn_body('send_request')[0]),
+    ]
     return f, spans
 
 
@@ -353,5 +387,12 @@ def render(f):
           'Definition send_data_err_via_hq : bool := %s.' % b(f['send_data_err_via_hq']),
           'Definition finish_err_via_hq : bool := %s.' % b(f['finish_err_via_hq']),
           'Definition finish_grease_first : bool := %s.' % b(f['finish_grease_first']),
-          'Definition send_trailers_maps : bool := %s.' % b(f['send_trailers_maps'])]
+          'Definition send_trailers_maps : bool := %s.' % b(f['send_trailers_maps']),
+          '(* store / closing call sites per file: server/request.rs, client/stream.rs, server/stream.rs,',
+          '   error/connection_error_creators.rs, connection.rs (RequestStream part), client/connection.rs send_request *)',
+          'Definition site_counts : list N := [%s].' % '; '.join(str(x) for x in f['site_counts']),
+          '(* whole-body digests (comments, whitespace, code and status names masked): accept_with_frame, resolve, recv_response,',
+          '   client poll_recv_trailers, poll_recv_trailers, poll_recv_data, finish, send_data, send_trailers, handle_quic_stream_error,',
+          '   handle_connection_error_on_stream, send_response, send_request *)',
+          'Definition body_hashes : list N := [%s].' % '; '.join(str(x) for x in f['body_hashes'])]
     return '\n'.join(L) + '\n'
